@@ -394,7 +394,6 @@ def tree_vocabulary(E, old):
     E.ghost[key] = True
     n, P = nof(t), col(t, "pid").arr
     x, c, k, k2 = (z3.Int(fresh_name(a)) for a in ("x", "c", "k", "m"))
-    S = z3.Const(fresh_name("S"), z3.ArraySort(_I, _B))
     Rn = lambda a: z3.And(a >= 0, a < n)
     sel = z3.Select
     # children in table order (same axioms as pyvc/traverse_rule.py states for its per-call functions)
@@ -404,11 +403,13 @@ def tree_vocabulary(E, old):
     E.assume(z3.ForAll([c], z3.Implies(z3.And(Rn(c), sel(P, c) >= 0), z3.And(0 <= RANK(c), RANK(c) < NK(sel(P, c)), KID(sel(P, c), RANK(c)) == c))))
     E.assume(z3.ForAll([x], z3.Implies(Rn(x), SHARE(x) == share_term(t, acc, x))))
     E.assume(z3.ForAll([x], sel(NODES, x) == Rn(x)))
+    # the fold: SUMV({}) = 0 here; the step equation SUMV(S + x) = SUMV(S) + SHARE(x) (x a node not in S) is instantiated by
+    # `sumv_unfold` at the sets the proof mentions -- a universally quantified ARRAY variable sends the solver's model finder
+    # into a search that ignores its time limit whenever an obligation fails
     E.assume(SUMV(EMPTY) == 0)
-    E.assume(z3.ForAll([S, x], z3.Implies(z3.And(Rn(x), z3.Not(sel(S, x))), SUMV(z3.Store(S, x, z3.BoolVal(True))) == SUMV(S) + SHARE(x))))
     E.assumptions.add("ghost definitions (C14 whole-tree statement): children_count / child / child_rank (children in table order), "
                       "node_distance (non-negative root of the squared centre distance of two nodes; defining property instantiated at the edges of the leave step), node_share (the per-node inclusion-exclusion share, "
-                      f"written out for at most {MAXK} children), sum_of_node_shares (fold of node_share over a finite node set), all_nodes_of_the_table (the set of row positions)")
+                      f"written out for at most {MAXK} children), sum_of_node_shares (fold of node_share over a finite node set; its step equation instantiated at the sets of the leave step), all_nodes_of_the_table (the set of row positions)")
 
 
 def gvfc_wf(which):
@@ -485,7 +486,15 @@ def gvfc_Ql(E, v, x, val, ctx):
 def gvfc_J(E, v, ENT, LEFT, ctx):
     """volume so far = sum of the shares of the nodes left so far"""
     E.ghost["c14-node-set-of-the-last-J"] = LEFT
+    sumv_unfold(E, LEFT, nof(v["tree"]))
     return R(v["volume"]) == SUMV(LEFT)
+
+
+def sumv_unfold(E, S, n):
+    """instance of the defining step equation of SUMV at a set written  S0 + {x}  (a z3 Store of `true`)"""
+    if z3.is_app(S) and S.decl().kind() == z3.Z3_OP_STORE and z3.is_true(S.arg(2)):
+        S0, x = S.arg(0), S.arg(1)
+        E.assume(z3.Implies(z3.And(x >= 0, x < n, z3.Not(z3.Select(S0, x))), SUMV(S) == SUMV(S0) + SHARE(x)))
 
 
 def gvfc_step_hints(E, v, x, ctx):
